@@ -35,10 +35,12 @@ theorem ev_none (R : RInterp ν) (O : DOps ν) (hO : OpsSound R O) : ev R (none'
 @[simp] theorem ev_num (R : RInterp ν) (s : String) (v : ν) : ev R (.num s v) = R.num v := by simp [ev, eval]
 @[simp] theorem ev_cond (R : RInterp ν) (c a b : Expr ν) :
     ev R (.cond c a b) = if hd R c then ev R a else ev R b := by
-  simp only [ev, hd, eval]; split_ifs <;> rfl
+  simp only [ev, hd, eval]; split_ifs <;> simp_all
 @[simp] theorem ev_expd (R : RInterp ν) (a b d : Expr ν) :
     ev R (.expd a b d) = if ev R a = 0 ∧ 0 < ev R b then 0 else ev R d := by
-  simp only [ev, eval]; split_ifs <;> rfl
+  by_cases h : ev R a = 0 ∧ 0 < ev R b
+  · rw [if_pos h]; show eval R.toInterp (.expd a b d) = 0; rw [eval]; exact if_pos h
+  · rw [if_neg h]; show eval R.toInterp (.expd a b d) = eval R.toInterp d; rw [eval]; exact if_neg h
 
 theorem bool_cases (b : Bool) : b = false ∨ b = true := by cases b <;> simp
 
@@ -71,6 +73,25 @@ theorem zpow_rule {n : ℤ} (hf : HasDerivAt f f' x0) (h : f x0 ≠ 0 ∨ 0 ≤ 
     HasDerivAt (fun t => f t ^ n) d x0 := by
   subst hd; exact (hasDerivAt_zpow n (f x0) h).comp x0 hf
 end rules
+
+theorem wrtA_ok (R : RInterp ν) (O : DOps ν) (hO : OpsSound R O) (x : String) (a b r : Expr ν)
+    (h : (if b.isConstant = true then do
+            let __x ← O.cm1 b
+            let e ← pure (Expr.num __x.1 __x.2)
+            let da ← diff O x a
+            chain O (.bin .mul b (.bin .pow a e)) da
+          else do
+            let e ← pure (Expr.bin .sub b (none' O))
+            let da ← diff O x a
+            chain O (.bin .mul b (.bin .pow a e)) da) = Except.ok r) :
+    ∃ e da, ev R e = ev R b - 1 ∧ diff O x a = .ok da ∧ chain O (.bin .mul b (.bin .pow a e)) da = .ok r := by
+  split at h
+  · simp only [except_bind_ok, except_pure_ok] at h
+    obtain ⟨⟨s, v⟩, hc, e, rfl, da, hda, hch⟩ := h
+    exact ⟨_, da, by simp [hO.cm1 b s v hc], hda, hch⟩
+  · simp only [except_bind_ok, except_pure_ok] at h
+    obtain ⟨e, rfl, da, hda, hch⟩ := h
+    exact ⟨_, da, by simp [ev_none R O hO], hda, hch⟩
 
 theorem dep_not_const (x : String) (e : Expr ν) (h : e.dependsOn x = true) : e.isConstant = false := by
   induction e with
@@ -230,7 +251,38 @@ theorem diff_sound (R : RInterp ν) (O : DOps ν) (hO : OpsSound R O) (x : Strin
         have : ev R b ≠ 0 := hs.2.2 (Or.inl ha)
         field_simp
         try ring
-    case pow => sorry
+    case pow =>
+      have hF : F R x (.bin .pow a b) = fun t => F R x a t ^ F R x b t := by funext t; simp [F]
+      simp only [SideOK] at hs
+      rw [hF]
+      simp only [diff] at h
+      rcases bool_cases (a.dependsOn x) with ha | ha <;> rcases bool_cases (b.dependsOn x) with hb | hb <;>
+        simp only [ha, hb] at h <;> dep_simp at h
+      · subst h
+        have h1 : F R x b = fun _ => ev R b := by funext t; exact (indep R x t b hp.2 hb).1
+        have h2 : F R x a = fun _ => ev R a := by funext t; exact (indep R x t a hp.1 ha).1
+        rw [h1, h2, ev_nzero R O hO]; exact hasDerivAt_const _ _
+      · obtain ⟨db, hdb, d2, hch, rfl⟩ := h
+        have h2 : F R x a = fun _ => ev R a := by funext t; exact (indep R x t a hp.1 ha).1
+        have hpos : 0 < ev R a := hs.2.2.1 hb
+        rw [h2]
+        refine rpow_rule (hasDerivAt_const _ _) (ihb db hp.2 hdb hs.2.1) hpos ?_
+        rw [ev_expd, if_neg (fun hh => (ne_of_gt hpos) hh.1), chain_ev R O hO _ _ _ hch]
+        simp [F_self, realF1]; ring
+      · obtain ⟨e, da, he, hda, hch⟩ := wrtA_ok R O hO x a b e' h
+        have h1 : F R x b = fun _ => ev R b := by funext t; exact (indep R x t b hp.2 hb).1
+        rw [h1]
+        refine rpow_const_rule (iha da hp.1 hda hs.1) (by rw [F_self]; exact hs.2.2.2 ha hb) ?_
+        rw [chain_ev R O hO _ _ _ hch]
+        simp [F_self, he]; ring
+      · obtain ⟨d1, h1, d2', h2, rfl⟩ := h
+        obtain ⟨e, da, he, hda, hch⟩ := wrtA_ok R O hO x a b d1 h1
+        obtain ⟨db, hdb, d2, hch2, rfl⟩ := h2
+        have hpos : 0 < ev R a := hs.2.2.1 hb
+        refine rpow_rule (iha da hp.1 hda hs.1) (ihb db hp.2 hdb hs.2.1) (by rw [F_self]; exact hpos) ?_
+        rw [ev_add, ev_expd, if_neg (fun hh => (ne_of_gt hpos) hh.1), chain_ev R O hO _ _ _ hch,
+          chain_ev R O hO _ _ _ hch2]
+        simp [F_self, realF1, he]; ring
   | _ => sorry
 
 end TfelVerif.C14
